@@ -29,10 +29,15 @@ Section TsInd.
     end.
 End TsInd.
 
-Local Notation zex := (TT.Model.C10Zod.zex_of []).
+Section Renderer.
+Variable m : list (str * str).          (* config.type_mappings *)
+Local Notation zex := (TT.Model.C10Zod.zex_of m).
+Local Notation unmapped := (fun n => TT.Model.C10Zod.lookup m n = None).
+(* a mapped name is rendered as z.string() / z.number() / .. / z.custom<X>((val) => true): identifiers z and true only *)
 Definition ids_ok (t : tstruct) : Prop :=
-  forall k, (forall x, In x (ex_ids [] (zex (conv t) k)) -> x = L "z" \/ exists n, In n (ts_names t) /\ x = schema_name n)
-         /\ (forall n, In n (ts_names t) -> In (schema_name n) (ex_ids [] (zex (conv t) k))).
+  forall k, (forall x, In x (ex_ids [] (zex (conv t) k)) ->
+               x = L "z" \/ x = L "true" \/ exists n, In n (ts_names t) /\ unmapped n /\ x = schema_name n)
+         /\ (forall n, In n (ts_names t) -> unmapped n -> In (schema_name n) (ex_ids [] (zex (conv t) k))).
 
 Lemma ids_zcall name args : ex_ids [] (TT.Model.C10Zod.zcall name args) = L "z" :: flat_map (ex_ids []) args.
 Proof. reflexivity. Qed.
@@ -43,21 +48,28 @@ Lemma prim_ids p k x : In x (ex_ids [] (zex (TT.Model.TypeParse.TPrim p) k)) -> 
 Proof. cbn [TT.Model.C10Zod.zex_of].
   repeat match goal with |- context [if ?b then _ else _] => destruct b end; cbn; intuition. Qed.
 
+Lemma custom_ids n x : In x (ex_ids [] (TT.Model.C10Zod.zcustom_ex m n)) ->
+  x = L "z" \/ x = L "true" \/ (unmapped n /\ x = schema_name n).
+Proof. unfold TT.Model.C10Zod.zcustom_ex. destruct (TT.Model.C10Zod.lookup m n) as [y|].
+  - repeat match goal with |- context [if ?b then _ else _] => destruct b end; cbn; intuition.
+  - cbn. intros [<-|[]]. right. right. auto. Qed.
+
 Theorem zex_ids : forall t, ids_ok t.
 Proof.
   induction t using tstruct_ind'; intros k; cbn [conv ts_names].
   - split; [intros x Hx; left; eapply prim_ids; eauto|intros n []].
   - cbn [TT.Model.C10Zod.zex_of]. rewrite ids_zcall. cbn [flat_map]. rewrite app_nil_r. destruct (IHt false) as [A B]. split.
     + intros x [<-|Hx]; auto.
-    + intros n Hn. right. auto.
+    + intros n Hn Hu. right. auto.
   - cbn [TT.Model.C10Zod.zex_of]. rewrite ids_zcall. cbn [flat_map]. rewrite app_nil_r.
     destruct (IHt1 true) as [A1 B1]. destruct (IHt2 false) as [A2 B2]. split.
-    + intros x [<-|Hx]; auto. apply in_app_or in Hx as [Hx|Hx]; [destruct (A1 x Hx) as [|(n & Hn & E)]|destruct (A2 x Hx) as [|(n & Hn & E)]]; auto;
-        right; exists n; split; auto; apply in_or_app; auto.
-    + intros n Hn. right. apply in_or_app. apply in_app_or in Hn as [Hn|Hn]; auto.
+    + intros x [<-|Hx]; auto. apply in_app_or in Hx as [Hx|Hx];
+        [destruct (A1 x Hx) as [|[|(n & Hn & Hu & E)]]|destruct (A2 x Hx) as [|[|(n & Hn & Hu & E)]]]; auto;
+        right; right; exists n; split; auto; apply in_or_app; auto.
+    + intros n Hn Hu. right. apply in_or_app. apply in_app_or in Hn as [Hn|Hn]; auto.
   - cbn [TT.Model.C10Zod.zex_of]. rewrite ids_zcall. cbn [flat_map]. rewrite app_nil_r. destruct (IHt false) as [A B]. split.
     + intros x [<-|Hx]; auto.
-    + intros n Hn. right. auto.
+    + intros n Hn Hu. right. auto.
   - destruct l as [|a l].
     + cbn. split; [intros x [<-|[]]; auto|intros n []].
     + assert (E : zex (TT.Model.TypeParse.TTuple (map conv (a :: l))) k =
@@ -65,37 +77,48 @@ Proof.
       rewrite E, ids_zcall. cbn [flat_map ex_ids]. rewrite app_nil_r. rewrite map_map.
       change (ts_names a ++ flat_map ts_names l) with (flat_map ts_names (a :: l)). split.
       * intros x [<-|Hx]; auto. apply in_flat_map in Hx as (e & He & Hx). apply in_map_iff in He as (t & <- & Ht).
-        rewrite Forall_forall in H. destruct (H t Ht false) as [A _]. destruct (A x Hx) as [|(n & Hn & En)]; auto.
-        right. exists n. split; auto. apply in_flat_map. exists t; auto.
-      * intros n Hn. right. apply in_flat_map in Hn as (t & Ht & Hn). apply in_flat_map. exists (zex (conv t) false). split.
+        rewrite Forall_forall in H. destruct (H t Ht false) as [A _]. destruct (A x Hx) as [|[|(n & Hn & Hu & En)]]; auto.
+        right. right. exists n. split; auto. apply in_flat_map. exists t; auto.
+      * intros n Hn Hu. right. apply in_flat_map in Hn as (t & Ht & Hn). apply in_flat_map. exists (zex (conv t) false). split.
         -- apply in_map_iff. exists t; auto.
-        -- rewrite Forall_forall in H. apply (H t Ht false). auto.
+        -- rewrite Forall_forall in H. apply (H t Ht false); auto.
   - cbn [TT.Model.C10Zod.zex_of]. rewrite ids_link. apply IHt.
   - cbn [TT.Model.C10Zod.zex_of]. rewrite ids_zcall. cbn [flat_map ex_ids]. rewrite !app_nil_r.
     destruct (IHt false) as [A B]. split.
     + intros x [<-|Hx]; auto. apply in_app_or in Hx as [Hx|Hx]; auto. cbn in Hx. intuition.
-    + intros n Hn. right. apply in_or_app. left. auto.
-  - cbn. split; [intros x [<-|[]]; right; exists s; auto|intros n [<-|[]]; left; reflexivity].
+    + intros n Hn Hu. right. apply in_or_app. left. auto.
+  - cbn [TT.Model.C10Zod.zex_of ts_names]. split.
+    + intros x Hx. destruct (custom_ids s x Hx) as [|[|[Hu ->]]]; auto. right. right. exists s. simpl. auto.
+    + intros n [<-|[]] Hu. unfold TT.Model.C10Zod.zcustom_ex. rewrite Hu. left. reflexivity.
 Qed.
 
 (* at the level of printed type strings: what a field of type s contributes to the right-hand side *)
-Lemma string_ids_spec s x : In x (string_ids s) -> x = L "z" \/ exists n, In n (ts_of s) /\ x = schema_name n.
-Proof. unfold string_ids, ts_of. destruct (parse_type_structure s) as [t|]; [|intros []]. apply (zex_ids t false). Qed.
-Lemma string_ids_complete s n : In n (ts_of s) -> In (schema_name n) (string_ids s).
-Proof. unfold string_ids, ts_of. destruct (parse_type_structure s) as [t|]; [|intros []]. apply (zex_ids t false). Qed.
+Lemma string_ids_spec s x : In x (string_ids_m m s) ->
+  x = L "z" \/ x = L "true" \/ exists n, In n (ts_of s) /\ unmapped n /\ x = schema_name n.
+Proof. unfold string_ids_m, ts_of. destruct (parse_type_structure s) as [t|]; [|intros []]. apply (zex_ids t false). Qed.
+Lemma string_ids_complete s n : In n (ts_of s) -> unmapped n -> In (schema_name n) (string_ids_m m s).
+Proof. unfold string_ids_m, ts_of. destruct (parse_type_structure s) as [t|]; [|intros []]. apply (zex_ids t false). Qed.
 
-(* the identifiers of a struct schema are z and the schema names of schema_refs: C09_decl_before_use speaks
-   about the identifiers of the text *)
-Theorem struct_ids_refs p n x : In x (struct_ids p n) <-> x = L "z" \/ exists m, In m (schema_refs p n) /\ x = schema_name m.
+Lemma unmapped_iff n : unmapped n <-> is_mapped m n = false.
+Proof. unfold is_mapped. induction m as [|[k v] r IH]; simpl; [tauto|]. destruct (str_eqb k n); simpl; [split; discriminate|auto]. Qed.
+
+(* the identifiers of a struct schema are z, possibly true, and the schema names of the unmapped schema_refs *)
+Theorem struct_ids_refs p n x : In x (struct_ids_m m p n) <->
+  x = L "z" \/ (x = L "true" /\ In x (struct_ids_m m p n)) \/ exists r, In r (schema_refs_m m p n) /\ x = schema_name r.
 Proof.
-  unfold struct_ids, schema_refs, raw_fields_ts. destruct (field_strings p n) as [l|]; simpl.
+  unfold struct_ids_m, schema_refs_m, schema_refs, raw_fields_ts. destruct (field_strings p n) as [l|]; simpl.
   - split.
-    + intros [<-|Hx]; auto. apply in_flat_map in Hx as (s & Hs & Hx). destruct (string_ids_spec s x Hx) as [|(m & Hm & E)]; auto.
-      right. exists m. split; auto. apply in_concat. exists (ts_of s). split; auto. apply in_map; auto.
-    + intros [->|(m & Hm & ->)]; auto. right. apply in_concat in Hm as (l' & Hl' & Hm). apply in_map_iff in Hl' as (s & <- & Hs).
+    + intros [<-|Hx]; auto. pose proof Hx as Hx0. apply in_flat_map in Hx as (s & Hs & Hx).
+      destruct (string_ids_spec s x Hx) as [|[->|(r & Hr & Hu & E)]]; auto.
+      right. right. exists r. split; auto. apply filter_In. split.
+      * apply in_concat. exists (ts_of s). split; auto. apply in_map; auto.
+      * apply negb_true_iff. apply unmapped_iff. auto.
+    + intros [->|[[_ H]|(r & Hr & ->)]]; auto. right. apply filter_In in Hr as [Hr Hu]. apply negb_true_iff in Hu. apply unmapped_iff in Hu.
+      apply in_concat in Hr as (l' & Hl' & Hr). apply in_map_iff in Hl' as (s & <- & Hs).
       apply in_flat_map. exists s. split; auto. apply string_ids_complete; auto.
-  - split; [intros [<-|[]]; auto|intros [->|(m & [] & _)]; auto].
+  - split; [intros [<-|[]]; auto|intros [->|[[_ H]|(r & Hr & _)]]; auto].
 Qed.
+End Renderer.
 
 (* ---------------- the whole module ---------------- *)
 Lemma starts_app_same (a b c : str) : starts (a ++ b) (a ++ c) = starts b c.
@@ -113,6 +136,8 @@ Lemma ends_in_params_app x : ends_in "Params" (x ++ L "Params") = true.
 Proof. unfold ends_in. rewrite rev_app_distr. apply starts_prefix. Qed.
 Lemma schema_name_inj a b : schema_name a = schema_name b -> a = b.
 Proof. unfold schema_name. apply app_inv_tail. Qed.
+Lemma true_not_schema n : L "true" <> schema_name n.
+Proof. intros E. apply (f_equal (@List.length ascii)) in E. unfold schema_name in E. rewrite app_length in E. simpl in E. lia. Qed.
 Lemma z_not_schema n : L "z" <> schema_name n.
 Proof. intros E. apply (f_equal (@List.length ascii)) in E. unfold schema_name in E. rewrite app_length in E. simpl in E. lia. Qed.
 
@@ -126,12 +151,13 @@ Hypothesis K6 : kf_c07_odd_name p = false.
 Hypothesis K7 : kf_c07_inline_mod p = false.
 Hypothesis Hac : acyclic (spec_graph p).
 Hypothesis Hnp : no_params_suffix p = true.
+Variable m : list (str * str).          (* config.type_mappings *)
 
-Theorem module_decl_before_use cs : zod_consts o p = Some cs -> decl_before_use cs = true.
+Theorem module_decl_before_use_m cs : zod_consts_m m o p = Some cs -> decl_before_use cs = true.
 Proof.
-  unfold zod_consts. destruct (emitted_zod o p) as [out|] eqn:Eo; [|discriminate]. intros Hcs. simpl in Hcs. injection Hcs as <-.
+  unfold zod_consts_m. destruct (emitted_zod o p) as [out|] eqn:Eo; [|discriminate]. intros Hcs. simpl in Hcs. injection Hcs as <-.
   destruct (zod_order_full o p out Ho Hdom K5 K6 K7 Hac Eo) as [Hnd Hord].
-  set (A := map (fun n => (schema_name n, struct_ids p n)) out). set (B := param_consts p).
+  set (A := map (fun n => (schema_name n, struct_ids_m m p n)) out). set (B := param_consts_m m p).
   unfold no_params_suffix in Hnp. apply andb_true_iff in Hnp as [Hn12 Hn3]. apply andb_true_iff in Hn12 as [Hn1 Hn2].
   rewrite forallb_forall in Hn1, Hn2, Hn3.
   (* the emitted names are defined names *)
@@ -142,55 +168,54 @@ Proof.
     destruct (topo_sort _ _ _) as [sorted|]; [|discriminate]. injection Eo' as <-.
     apply filter_In in Hu as [_ Hu]. apply smemb_true in Hu.
     destruct (declared_sub o Ho p disc decl Ed Edecl u Hu) as [_ Hr]. apply resolvable_in; auto. }
-  assert (HA : forall k, k < List.length out -> exists u, nth_error out k = Some u /\ nth_error (A ++ B) k = Some (schema_name u, struct_ids p u)).
+  assert (HA : forall k, k < List.length out -> exists u, nth_error out k = Some u /\ nth_error (A ++ B) k = Some (schema_name u, struct_ids_m m p u)).
   { intros k Hk. destruct (nth_error out k) as [u|] eqn:Eu; [|apply nth_error_None in Eu; lia]. exists u. split; auto.
     rewrite nth_error_app1 by (unfold A; rewrite map_length; auto). unfold A. rewrite (map_nth_error _ _ _ Eu). reflexivity. }
-  assert (HBin : forall b, In b B -> exists c, In c (commands p) /\ b = (params_const c, params_ids c)).
-  { intros b Hb. unfold B, param_consts in Hb. apply in_map_iff in Hb as (c & <- & Hc). apply filter_In in Hc as [Hc _]. eauto. }
+  assert (HBin : forall b, In b B -> exists c, In c (commands p) /\
+            b = (params_const c, L "z" :: flat_map (fun t => string_ids_m m (tstr t)) (cmd_params c))).
+  { intros b Hb. unfold B, param_consts_m in Hb. apply in_map_iff in Hb as (c & <- & Hc). apply filter_In in Hc as [Hc _]. eauto. }
   (* a struct name reference that names a constant of the module names an emitted struct *)
-  assert (Hname : forall m, (ends_in "Params" m = true -> False) -> In (schema_name m) (map fst (A ++ B)) -> In m out).
-  { intros m Hm Hin. rewrite map_app in Hin. apply in_app_or in Hin as [Hin|Hin].
+  assert (Hname : forall r, (ends_in "Params" r = true -> False) -> In (schema_name r) (map fst (A ++ B)) -> In r out).
+  { intros r Hm Hin. rewrite map_app in Hin. apply in_app_or in Hin as [Hin|Hin].
     - unfold A in Hin. rewrite map_map in Hin. apply in_map_iff in Hin as (u & Eu & Hu). simpl in Eu. apply schema_name_inj in Eu. subst; auto.
     - exfalso. apply in_map_iff in Hin as (b & Eb & Hb). destruct (HBin b Hb) as (c & _ & ->). simpl in Eb.
       rewrite params_const_form in Eb. apply schema_name_inj in Eb. apply Hm. rewrite <- Eb. apply ends_in_params_app. }
+  assert (Hshort : forall x, (forall n, x <> schema_name n) -> In x (map fst (A ++ B)) -> False).
+  { intros x Hx Hin. rewrite map_app in Hin. apply in_app_or in Hin as [Hin|Hin].
+    - unfold A in Hin. rewrite map_map in Hin. apply in_map_iff in Hin as (v & Ev & _). simpl in Ev. apply (Hx v). auto.
+    - apply in_map_iff in Hin as (b & Eb & Hb). destruct (HBin b Hb) as (c & _ & ->). simpl in Eb. rewrite params_const_form in Eb.
+      eapply Hx; eauto. }
   apply c09_oracle_exact. split.
   - (* DeclBeforeUse *)
     intros k n refs Hk x Hx Hxin.
     destruct (Nat.lt_ge_cases k (List.length out)) as [Hlt|Hge].
     + destruct (HA k Hlt) as (u & Hu & Hcu). rewrite Hcu in Hk. injection Hk as <- <-.
-      apply struct_ids_refs in Hx as [->|(m & Hm & ->)].
-      * exfalso. rewrite map_app in Hxin. apply in_app_or in Hxin as [Hin|Hin].
-        -- unfold A in Hin. rewrite map_map in Hin. apply in_map_iff in Hin as (v & Ev & _). simpl in Ev. apply (z_not_schema v). auto.
-        -- apply in_map_iff in Hin as (b & Eb & Hb). destruct (HBin b Hb) as (c & _ & ->). simpl in Eb. rewrite params_const_form in Eb.
-           eapply z_not_schema; eauto.
-      * assert (Hu_in : In u out) by (eapply nth_error_In; eauto).
-        assert (Hmp : ends_in "Params" m = true -> False).
-        { intros E. specialize (Hn2 u (Hout_def u Hu_in)). rewrite forallb_forall in Hn2. specialize (Hn2 m Hm). rewrite E in Hn2. discriminate. }
-        pose proof (Hname m Hmp Hxin) as Hm_out.
-        destruct (Hord u m Hu_in Hm_out Hm) as (i & j & Hi & Hj & Hij).
+      apply (struct_ids_refs m) in Hx as [->|[[-> _]|(r & Hr & ->)]].
+      * exfalso. apply (Hshort (L "z") z_not_schema Hxin).
+      * exfalso. apply (Hshort (L "true") true_not_schema Hxin).
+      * apply filter_In in Hr as [Hr _].
+        assert (Hu_in : In u out) by (eapply nth_error_In; eauto).
+        assert (Hmp : ends_in "Params" r = true -> False).
+        { intros E. specialize (Hn2 u (Hout_def u Hu_in)). rewrite forallb_forall in Hn2. specialize (Hn2 r Hr). rewrite E in Hn2. discriminate. }
+        pose proof (Hname r Hmp Hxin) as Hm_out.
+        destruct (Hord u r Hu_in Hm_out Hr) as (i & j & Hi & Hj & Hij).
         assert (j = k).
         { apply (proj1 (NoDup_nth_error out) Hnd); [apply nth_error_Some; rewrite Hj; discriminate|congruence]. }
         subst j. assert (Hi_lt : i < List.length out) by lia. destruct (HA i Hi_lt) as (m' & Hm' & Hcm). rewrite Hi in Hm'. injection Hm' as <-.
-        exists i, (struct_ids p m). split; auto.
+        exists i, (struct_ids_m m p r). split; auto.
     + rewrite nth_error_app2 in Hk by (unfold A; rewrite map_length; auto). apply nth_error_In in Hk.
       destruct (HBin _ Hk) as (c & Hc & E). injection E as -> ->.
-      destruct Hx as [<-|Hx].
-      * exfalso. rewrite map_app in Hxin. apply in_app_or in Hxin as [Hin|Hin].
-        -- unfold A in Hin. rewrite map_map in Hin. apply in_map_iff in Hin as (v & Ev & _). simpl in Ev. apply (z_not_schema v). auto.
-        -- apply in_map_iff in Hin as (b & Eb & Hb). destruct (HBin b Hb) as (c' & _ & ->). simpl in Eb. rewrite params_const_form in Eb.
-           eapply z_not_schema; eauto.
-      * apply in_flat_map in Hx as (t & Ht & Hx). destruct (string_ids_spec _ _ Hx) as [->|(m & Hm & ->)].
-        -- exfalso. rewrite map_app in Hxin. apply in_app_or in Hxin as [Hin|Hin].
-           ++ unfold A in Hin. rewrite map_map in Hin. apply in_map_iff in Hin as (v & Ev & _). simpl in Ev. apply (z_not_schema v). auto.
-           ++ apply in_map_iff in Hin as (b & Eb & Hb). destruct (HBin b Hb) as (c' & _ & ->). simpl in Eb. rewrite params_const_form in Eb.
-              eapply z_not_schema; eauto.
-        -- assert (Hmp : ends_in "Params" m = true -> False).
-           { intros E. specialize (Hn3 c Hc). rewrite forallb_forall in Hn3. specialize (Hn3 t Ht). rewrite forallb_forall in Hn3.
-             specialize (Hn3 m Hm). rewrite E in Hn3. discriminate. }
-           pose proof (Hname m Hmp Hxin) as Hm_out. apply In_nth_error in Hm_out as (i & Hi).
-           assert (Hi_lt : i < List.length out) by (apply nth_error_Some; rewrite Hi; discriminate).
-           destruct (HA i Hi_lt) as (m' & Hm' & Hcm). rewrite Hi in Hm'. injection Hm' as <-.
-           exists i, (struct_ids p m). split; [lia|auto].
+      destruct Hx as [<-|Hx]; [exfalso; apply (Hshort (L "z") z_not_schema Hxin)|].
+      apply in_flat_map in Hx as (t & Ht & Hx). destruct (string_ids_spec m _ _ Hx) as [->|[->|(r & Hr & _ & ->)]].
+      * exfalso. apply (Hshort (L "z") z_not_schema Hxin).
+      * exfalso. apply (Hshort (L "true") true_not_schema Hxin).
+      * assert (Hmp : ends_in "Params" r = true -> False).
+        { intros E. specialize (Hn3 c Hc). rewrite forallb_forall in Hn3. specialize (Hn3 t Ht). rewrite forallb_forall in Hn3.
+          specialize (Hn3 r Hr). rewrite E in Hn3. discriminate. }
+        pose proof (Hname r Hmp Hxin) as Hm_out. apply In_nth_error in Hm_out as (i & Hi).
+        assert (Hi_lt : i < List.length out) by (apply nth_error_Some; rewrite Hi; discriminate).
+        destruct (HA i Hi_lt) as (m' & Hm' & Hcm). rewrite Hi in Hm'. injection Hm' as <-.
+        exists i, (struct_ids_m m p r). split; [lia|auto].
   - (* ParamsLast *)
     intros i j a b Hij Hi Hj Ha.
     destruct (Nat.lt_ge_cases i (List.length out)) as [Hlt|Hge].
@@ -200,3 +225,48 @@ Proof.
       destruct (HBin _ Hj) as (c & _ & ->). simpl. apply params_const_is_params.
 Qed.
 End Module.
+
+(* without type mappings *)
+Theorem module_decl_before_use o (Ho : ord_ok o) p : in_domain p = true ->
+  kf_c07_field_result p = false -> kf_c07_odd_name p = false -> kf_c07_inline_mod p = false ->
+  acyclic (spec_graph p) -> no_params_suffix p = true ->
+  forall cs, zod_consts o p = Some cs -> decl_before_use cs = true.
+Proof. intros Hd K5 K6 K7 Hac Hnp cs. exact (module_decl_before_use_m o Ho p Hd K5 K6 K7 Hac Hnp [] cs). Qed.
+
+(* the instances without mappings used by Properties/C09.v *)
+Theorem zex_ids_plain : forall t k,
+  (forall x, In x (ex_ids [] (TT.Model.C10Zod.zex_of [] (conv t) k)) -> x = L "z" \/ exists n, In n (ts_names t) /\ x = schema_name n) /\
+  (forall n, In n (ts_names t) -> In (schema_name n) (ex_ids [] (TT.Model.C10Zod.zex_of [] (conv t) k))).
+Proof. intros t k. destruct (zex_ids [] t k) as [A B]. split.
+  - intros x Hx. destruct (A x Hx) as [|[->|(n & Hn & _ & E)]]; eauto.
+    (* without mappings no identifier true is printed *)
+    exfalso. clear A B. revert k Hx. induction t using tstruct_ind'; intros k Hx; cbn [conv] in Hx.
+    + apply prim_ids in Hx. discriminate.
+    + cbn [TT.Model.C10Zod.zex_of] in Hx. rewrite ids_zcall in Hx. cbn [flat_map] in Hx. rewrite app_nil_r in Hx. destruct Hx as [E|Hx]; [discriminate|eauto].
+    + cbn [TT.Model.C10Zod.zex_of] in Hx. rewrite ids_zcall in Hx. cbn [flat_map] in Hx. rewrite app_nil_r in Hx.
+      destruct Hx as [E|Hx]; [discriminate|]. apply in_app_or in Hx as [Hx|Hx]; eauto.
+    + cbn [TT.Model.C10Zod.zex_of] in Hx. rewrite ids_zcall in Hx. cbn [flat_map] in Hx. rewrite app_nil_r in Hx. destruct Hx as [E|Hx]; [discriminate|eauto].
+    + destruct l as [|a l]; [cbn in Hx; intuition discriminate|].
+      change (TT.Model.C10Zod.zex_of [] (TT.Model.TypeParse.TTuple (map conv (a :: l))) k) with
+             (TT.Model.C10Zod.zcall "tuple" [EArr (map (fun x => TT.Model.C10Zod.zex_of [] x false) (map conv (a :: l)))]) in Hx.
+      rewrite ids_zcall in Hx. cbn [flat_map ex_ids] in Hx. rewrite app_nil_r, map_map in Hx. destruct Hx as [E|Hx]; [discriminate|].
+      apply in_flat_map in Hx as (e & He & Hx). apply in_map_iff in He as (t & <- & Ht). rewrite Forall_forall in H. eapply H; eauto.
+    + cbn [TT.Model.C10Zod.zex_of] in Hx. rewrite ids_link in Hx. eauto.
+    + cbn [TT.Model.C10Zod.zex_of] in Hx. rewrite ids_zcall in Hx. cbn [flat_map ex_ids] in Hx. rewrite !app_nil_r in Hx.
+      destruct Hx as [E|Hx]; [discriminate|]. apply in_app_or in Hx as [Hx|Hx]; eauto. cbn in Hx. intuition discriminate.
+    + cbn in Hx. destruct Hx as [E|[]]. apply (true_not_schema s). auto.
+  - intros n Hn. apply B; auto.
+Qed.
+Theorem struct_ids_refs_plain p n x : In x (struct_ids p n) <-> x = L "z" \/ exists r, In r (schema_refs p n) /\ x = schema_name r.
+Proof.
+  unfold struct_ids, schema_refs, raw_fields_ts. destruct (field_strings p n) as [l|]; simpl.
+  - split.
+    + intros [<-|Hx]; auto. apply in_flat_map in Hx as (s & Hs & Hx). unfold string_ids, field_ex in Hx.
+      destruct (parse_type_structure s) as [t|] eqn:Ep; [|contradiction].
+      destruct (proj1 (zex_ids_plain t false) x Hx) as [|(r & Hr & E)]; auto.
+      right. exists r. split; auto. apply in_concat. exists (ts_of s). split; [apply in_map; auto|]. unfold ts_of. rewrite Ep. auto.
+    + intros [->|(r & Hr & ->)]; auto. right. apply in_concat in Hr as (l' & Hl' & Hr). apply in_map_iff in Hl' as (s & <- & Hs).
+      apply in_flat_map. exists s. split; auto. unfold string_ids, field_ex, ts_of in *.
+      destruct (parse_type_structure s) as [t|]; [|contradiction]. apply (zex_ids_plain t false); auto.
+  - split; [intros [<-|[]]; auto|intros [->|(r & [] & _)]; auto].
+Qed.
